@@ -177,9 +177,12 @@ def typed_key_eq(a, b):
     return type(a) is type(b) and a == b
 
 
+ROUNDTRIP_CLAUSES = ("parse_path", "extract", "stringify_path")     # the clauses findings K5 / K6 are about
+
+
 def observe(ks, sib_seed):
     """Run the real API on the location ks.  Returns (expected observable for
-    c09_case, oracle failure text or None, obj1)."""
+    c09_case, list of (clause, failure text) - one entry per failing clause, obj1)."""
     from deepdiff import DeepDiff, extract, parse_path
     from deepdiff.path import stringify_path, _path_to_elements
     obj1 = build(ks, 1, sib_seed)
@@ -188,63 +191,71 @@ def observe(ks, sib_seed):
     text = DeepDiff(obj1, obj2, ignore_private_variables=False)
     tree = DeepDiff(obj1, obj2, ignore_private_variables=False, view="tree")
     if list(text.keys()) != ["values_changed"] or len(text["values_changed"]) != 1:
-        return None, "DeepDiff did not report exactly one values_changed: %r" % (text,), obj1
+        return None, [("report", "DeepDiff did not report exactly one values_changed: %r" % (text,))], obj1
     p = list(text["values_changed"])[0]
     level = tree["values_changed"][0]
     lp = level.path(output_format="list")
     if not isinstance(p, str):
-        return None, "reported path is not a string: %r" % (p,), obj1
-    why = None
+        return None, [("report", "reported path is not a string: %r" % (p,))], obj1
+    whys = []
     if level.path() != p:
-        why = "tree view path() %r differs from the text view key %r" % (level.path(), p)
+        whys.append(("report", "tree view path() %r differs from the text view key %r" % (level.path(), p)))
     # -- parse
     parsed = parse_path(p)
     els = _path_to_elements(p, root_element=None)
-    if why is None and not (len(parsed) == len(raw) and all(typed_key_eq(x, y) for x, y in zip(parsed, raw))):
-        why = "parse_path(%r) = %r, the key sequence is %r" % (p, parsed, raw)
+    if not (len(parsed) == len(raw) and all(typed_key_eq(x, y) for x, y in zip(parsed, raw))):
+        whys.append(("parse_path", "parse_path(%r) = %r, the key sequence is %r" % (p, parsed, raw)))
     # -- list path
-    if why is None and not (len(lp) == len(raw) and all(typed_key_eq(x, y) for x, y in zip(lp, raw))):
-        why = "tree view list path %r, the key sequence is %r" % (lp, raw)
+    if not (isinstance(lp, list) and len(lp) == len(raw) and all(typed_key_eq(x, y) for x, y in zip(lp, raw))):
+        whys.append(("list-form", "tree view list path %r, the key sequence is %r" % (lp, raw)))
     # -- extract
     try:
         got = extract(obj1, p)
         ex = ["Some", canon_val(got)]
-        if why is None and not (type(got) is int and got == 1):
-            why = "extract(obj, %r) returned %r, the object at the location is 1" % (p, got)
+        if not (type(got) is int and got == 1):
+            whys.append(("extract", "extract(obj, %r) returned %r, the object at the location is 1" % (p, got)))
     except Exception as e:
         ex = None
-        if why is None:
-            why = "extract(obj, %r) raised %s: %s" % (p, type(e).__name__, e)
+        whys.append(("extract", "extract(obj, %r) raised %s: %s" % (p, type(e).__name__, e)))
     # -- stringify_path, both readings
     sa = stringify_path(els)
     sb = stringify_path(parsed, root_element=("root", "GET"))
-    if why is None and sa != p:
-        why = "stringify_path(_path_to_elements(p, root_element=None)) = %r, p = %r" % (sa, p)
-    if why is None and sb != p:
-        why = "stringify_path(parse_path(p), root_element=('root','GET')) = %r, p = %r" % (sb, p)
+    if sa != p:
+        whys.append(("stringify_path", "stringify_path(_path_to_elements(p, root_element=None)) = %r, p = %r" % (sa, p)))
+    if sb != p:
+        whys.append(("stringify_path", "stringify_path(parse_path(p), root_element=('root','GET')) = %r, p = %r" % (sb, p)))
     exp = [p,
            ["Some", [["k", canon_or_nonatom(x)] for x in parsed]],
            [[canon_or_nonatom(x), "G" if act == "GET" else "A"] for x, act in els],
            ex, sa, sb,
-           [["k", canon_or_nonatom(x)] for x in lp]]
-    return exp, why, obj1
+           [["k", canon_or_nonatom(x)] for x in (lp if isinstance(lp, list) else [])]]
+    return exp, whys, obj1
+
+
+def split_whys(whys):
+    """(failure outside the round-trip clauses or None, first round-trip failure or None):
+    a known finding about the printer / parser pair never covers the other clauses"""
+    other = next(((c, w) for c, w in whys if c not in ROUNDTRIP_CLAUSES), None)
+    rt = next(((c, w) for c, w in whys if c in ROUNDTRIP_CLAUSES), None)
+    return other, rt
 
 
 def _task(args):
     ks, sib_seed = args
     logging.disable(logging.CRITICAL)
     try:
-        exp, why, obj1 = observe(ks, sib_seed)
+        exp, whys, obj1 = observe(ks, sib_seed)
     except Exception as e:
-        return (ks, sib_seed, None, "the path API raised %s: %s" % (type(e).__name__, e), None)
-    return (ks, sib_seed, exp, why, values.to_coq(obj1) if exp is not None else None)
+        return (ks, sib_seed, None, [("api", "the path API raised %s: %s" % (type(e).__name__, e))], None)
+    return (ks, sib_seed, exp, whys, values.to_coq(obj1) if exp is not None else None)
 
 
-def case_dict(ks, sib_seed, why=None):
+def case_dict(ks, sib_seed, why=None, clause=None):
     d = {"keys": [key_json(k) for k in ks], "sib_seed": sib_seed,
          "python": "DeepDiff(build(keys,1), build(keys,2), ignore_private_variables=False); keys = %r" % ([a for _t, a in ks],)}
     if why:
         d["failure"] = why
+        d["clause"] = clause
     return d
 
 
@@ -256,11 +267,17 @@ def _strs(case):
     return [j[1] for j in case.get("keys", []) if j[0] == "s"]
 
 
+def _rt(case):
+    """the failing clause is one the printer / parser findings are about (never the list form,
+    the report itself, a crash of the API or the history of calls)"""
+    return case.get("clause") in ROUNDTRIP_CLAUSES
+
+
 MATCHERS = {
-    # a string key on the path contains both quote characters
-    "K5-both-quote-characters": lambda case: any("'" in s and '"' in s for s in _strs(case)),
-    # a string key on the path ends with the parser's private escape character
-    "K6-escape-character": lambda case: any(s.endswith(ESC) for s in _strs(case)),
+    # a string key on the path contains both quote characters, and the string round trip is what fails
+    "K5-both-quote-characters": lambda case: _rt(case) and any("'" in s and '"' in s for s in _strs(case)),
+    # a string key on the path ends with the parser's private escape character, and the string round trip is what fails
+    "K6-escape-character": lambda case: _rt(case) and any(s.endswith(ESC) for s in _strs(case)),
 }
 
 
@@ -309,21 +326,25 @@ def run_sequences(ctx, name, seqs):
         res = pool.map(_task, seqs, chunksize=64)
     cases = []
     bad_paths = []
-    for ks, sib_seed, exp, why, obj_coq in res:
+    for ks, sib_seed, exp, whys, obj_coq in res:
         ok = path_ok(ks)
         ctx.seen((tuple(map(tuple, map(key_json, ks))), sib_seed), nontrivial=bool(ks))
         ctx.count("%s:%s" % (name, "inside_guard" if ok else "outside_guard"))
         ctx.count("depth:%d" % len(ks))
-        if why and has_bytes(ks) and not all(key_ok(a) for _t, a in ks if isinstance(a, bytes)):
+        other, rt = split_whys(whys)
+        if other:
+            # the report itself, the list form, a crash: no finding about the printer / parser pair covers these
+            ctx.fail(case_dict(ks, sib_seed, other[1], other[0]), other[1])
+        if rt and has_bytes(ks) and not all(key_ok(a) for _t, a in ks if isinstance(a, bytes)):
             # bytes keys are outside C09's quantifier: the model must agree with the code on
             # them (correspondence below); the round-trip failures of bytes keys whose repr
             # needs an escape (outside the Coq guard) are counted, not reported
             ctx.count("%s:bytes_key_roundtrip_failure(outside the property's universe)" % name)
-        elif why:
-            r = ctx.fail(case_dict(ks, sib_seed, why), why)
+        elif rt:
+            r = ctx.fail(case_dict(ks, sib_seed, rt[1], rt[0]), rt[1])
             if r == "known" and ok:
                 # a failure inside the proved guard can never be a known finding
-                ctx.failures.append({"what": "failure inside the proved guard: " + why, "case": case_dict(ks, sib_seed, why)})
+                ctx.failures.append({"what": "failure inside the proved guard: " + rt[1], "case": case_dict(ks, sib_seed, rt[1], rt[0])})
         if exp is None:
             continue
         if ok:
@@ -493,7 +514,7 @@ def extract_positions(ctx, n):
             ctx.count("extract_positions:%s" % ("inside_guard" if path_ok(ks) else "outside_guard"))
             if not good:
                 why = "extract(obj, %r) does not return the object at %r" % (p, list(pos))
-                ctx.fail({"keys": [key_json(k) for k in ks], "obj": repr(v), "path": p, "failure": why}, why)
+                ctx.fail({"keys": [key_json(k) for k in ks], "obj": repr(v), "path": p, "failure": why, "clause": "extract"}, why)
             cases.append(("c09_extract_case %s %s" % (vc, coq_path(ks)), [p, ex, ["Some", values.canon(cur)]], {"obj": repr(v), "pos": repr(pos)}))
     ctx.coq_cases("extract_positions", HEADER, cases, shard=250, label="extract_positions")
 
@@ -781,28 +802,526 @@ def list_edits(ctx, pool, n):
     ctx.coq_cases("list_edits", HEADER, cases, shard=250, label="list_edits")
 
 
+# ---- DiffLevel.path: every argument combination, in any order, on one level -------------
+# (the per-level cache self._path; seeded change C09-3 lived there)
+
+HEADER2 = HEADER.replace("Path.PathShow.", "Path.PathShow Path.PathCacheModel Path.PathCacheShow.")
+FORCES = [None, "yes", "fake"]
+ROOTS = ["root", "root", "", "r[0]", "x'y"]
+
+
+def build_multi_shared(locs, leaf):
+    """build_multi, but children reached through different heads and holding the same
+    sub-locations are ONE object occurring at several positions"""
+    memo = {}
+
+    def go(ls):
+        if any(len(l) == 0 for l in ls):
+            return leaf
+        groups, order = {}, []
+        for l in ls:
+            k = l[0]
+            gk = (k[0], type(k[1]).__name__, k[1])
+            if gk not in groups:
+                groups[gk] = (k, [])
+                order.append(gk)
+            groups[gk][1].append(l[1:])
+
+        def child(subs):
+            key = repr(subs)
+            if any(len(x) > 0 for x in subs):
+                if key not in memo:
+                    memo[key] = go(subs)
+                return memo[key]
+            return go(subs)
+        if ls[0][0][0] == "x":
+            n = max(groups[g][0][1] for g in order) + 1
+            items = [None] * n
+            for g in order:
+                k, subs = groups[g]
+                items[k[1]] = child(subs)
+            return items
+        return {groups[g][0][1]: child(groups[g][1]) for g in order}
+    return go(locs)
+
+
+def gen_multi_shared(rng, pool):
+    """two or three heads under one container whose children have the same changed sub-locations"""
+    prefix = [gen_key(rng, pool) for _ in range(rng.randint(0, 1))]
+    heads = []
+    while len(heads) < rng.randint(2, 3):
+        k = gen_key(rng, pool)
+        k = ("k", k[1])
+        if all(not (k[1] == h[1]) for h in heads):
+            heads.append(k)
+    tails = []
+    while len(tails) < rng.randint(1, 2):
+        k = gen_key(rng, pool)
+        if k[0] == "x":
+            k = ("k", k[1])
+        if all(not (k[1] == t[0][1]) for t in tails):
+            tails.append([k])
+    return [prefix + [h] + t for h in heads for t in tails]
+
+
+def level_links(level):
+    """(param of t1_child_rel, param of t2_child_rel) of every level above `level`, root first"""
+    out = []
+    lv = level.all_up
+    while lv is not None and lv is not level:
+        r1, r2 = lv.t1_child_rel, lv.t2_child_rel
+        out.append((None if r1 is None else ("k", r1.param), None if r2 is None else ("k", r2.param)))
+        lv = lv.down
+    return out
+
+
+def coq_links(links):
+    def o(x):
+        return "None" if x is None else "(Some (PKey %s))" % values.atom_to_coq(x[1])
+    return "[" + "; ".join("mk_link %s %s" % (o(a), o(b)) for a, b in links) + "]"
+
+
+def coq_pop(op):
+    if op[0] == "mut":
+        return "OMutate %d%%nat %s" % (op[1], coq_path([("k", x) for x in op[2]]))
+    _c, root, force, gpt, t2, fmt = op
+    return "OCall (mk_pargs %s %s %s %s %s)" % (
+        core.coq_pystr(root), {None: "FNone", "yes": "FYes", "fake": "FFake"}[force],
+        core.coq_bool(gpt), core.coq_bool(t2), "FmtStr" if fmt == "str" else "FmtList")
+
+
+def gen_path_ops(rng, n):
+    ops, nlists = [], 0
+    for _ in range(n):
+        if nlists and rng.random() < 0.2:
+            ops.append(("mut", rng.randrange(nlists), rng.choice([[], ["zz"], [0, "q", None]])))
+            continue
+        fmt = rng.choice(["str", "str", "list"])
+        ops.append(("call", rng.choice(ROOTS), rng.choice(FORCES), rng.random() < 0.35, rng.random() < 0.4, fmt))
+        if fmt == "list":
+            nlists += 1
+    return ops
+
+
+def run_path_ops(level, ops):
+    """Execute ops on the level; returns (observable for c09_path_trace, raw results, list objects)."""
+    lists, obs, raw = [], [], []
+    for op in ops:
+        if op[0] == "mut":
+            lists[op[1]][:] = op[2]
+            obs.append("-")
+            raw.append(None)
+            continue
+        _c, root, force, gpt, t2, fmt = op
+        r = level.path(root=root, force=force, get_parent_too=gpt, use_t2=t2, output_format=fmt)
+        raw.append((r, list(r)) if isinstance(r, list) else r)        # a list: the object and its content now
+        if isinstance(r, list):
+            idx = next((i for i, l in enumerate(lists) if l is r), None)
+            if idx is None:
+                idx = len(lists)
+                lists.append(r)
+            obs.append(["l", idx, [["k", canon_or_nonatom(x)] for x in r]])
+        elif isinstance(r, tuple) and len(r) == 3:
+            a, b, c = r
+            obs.append(["t", None if a is None else ["Some", a], ["k", canon_or_nonatom(b)], None if c is None else ["Some", c]])
+        else:
+            obs.append(["s", None if r is None else ["Some", r]])
+    return obs, raw, lists
+
+
+def check_path_results(level, obj1, obj2, ops, raw, guard_ok):
+    """The property on every result of the trace: the list form leads to the level's own
+    object, the string form extracts it (inside the guard), parse_path(string form) is the
+    list form, a returned list is a new object."""
+    from deepdiff import extract, parse_path
+    from deepdiff.helper import notpresent
+    seen_lists = []
+    depth = len(level_links(level))
+    for op, r in zip(ops, raw):
+        if op[0] == "mut":
+            continue
+        _c, root, force, gpt, t2, fmt = op
+        obj, want = (obj2, level.t2) if t2 else (obj1, level.t1)
+        if want is notpresent:           # the other side's relationship is used: follow it in the other object
+            obj, want = (obj1, level.t1) if t2 else (obj2, level.t2)
+        what = "level.path(root=%r, force=%r, get_parent_too=%r, use_t2=%r, output_format=%r)" % (root, force, gpt, t2, fmt)
+        if fmt == "list":
+            if not isinstance(r, tuple) or not isinstance(r[0], list):
+                return "list-form", "%s returned %r, not a list" % (what, r)
+            robj, r = r
+            if any(robj is l for l in seen_lists):
+                return "list-form", "%s returned a list object it had returned before" % what
+            seen_lists.append(robj)
+            if len(r) != depth:
+                return "list-form", "%s = %r has %d elements, the level is %d levels below the root" % (what, r, len(r), depth)
+            try:
+                got = values.get_at(obj, r)
+            except Exception as e:
+                return "list-form", "%s = %r does not exist in the object (%s)" % (what, r, type(e).__name__)
+            if not same_object(got, want):
+                return "list-form", "%s = %r leads to %r, the level's object is %r" % (what, r, got, want)
+            continue
+        res = r[2] if gpt else r
+        if not isinstance(res, str) or not res.startswith(root):
+            return "string-form", "%s returned %r" % (what, r)
+        if guard_ok:
+            p = "root" + res[len(root):]
+            try:
+                got = extract(obj, p)
+            except Exception as e:
+                return "extract", "%s = %r: extract raised %s" % (what, r, type(e).__name__)
+            if not same_object(got, want):
+                return "extract", "%s = %r extracts %r, the level's object is %r" % (what, r, got, want)
+            keys = parse_path(p)
+            if len(keys) != depth:
+                return "parse_path", "parse_path(%r) = %r, the level is %d levels below the root" % (p, keys, depth)
+            if gpt and depth:
+                try:
+                    par = extract(obj, "root" + r[0][len(root):])
+                    got = par[r[1]]
+                except Exception as e:
+                    return "parent", "%s = %r: parent[param] raised %s" % (what, r, type(e).__name__)
+                if not same_object(got, want):
+                    return "parent", "%s = %r: parent[param] is %r, the level's object is %r" % (what, r, got, want)
+    return None, None
+
+
+def observe_path_calls(kind, inp, seed):
+    """kind 'multi': inp = locs (objects may share children); 'list': inp = (prefix, a, b, sib_seed).
+    Returns (list of (links, ops, observable), clause, failure)."""
+    from deepdiff import DeepDiff
+    rng = random.Random(seed)
+
+    def make():
+        if kind == "multi":
+            shared = rng_shared[0]
+            b = build_multi_shared if shared else build_multi
+            o1, o2 = b(inp, 1), b(inp, 2)
+        else:
+            prefix, a, b_, sib_seed = inp
+            o1, o2 = build(prefix, list(a), sib_seed), build(prefix, list(b_), sib_seed)
+        tree = DeepDiff(o1, o2, ignore_private_variables=False, view="tree")
+        levels = []
+        for _rt, lvs in tree.items():
+            for lv in lvs:
+                levels.append(lv)
+        return o1, o2, levels
+    rng_shared = [kind == "multi" and seed % 3 == 0]
+    obj1, obj2, levels = make()
+    if not levels:
+        return [], None, None
+    if kind == "multi":
+        guard_ok = all(path_ok(l) for l in inp)
+    else:
+        guard_ok = path_ok(inp[0])
+    # pick levels: reported ones and their ancestors
+    picks = []
+    for _ in range(3):
+        i = rng.randrange(len(levels))
+        up = rng.choice([0, 0, 1, 2])
+        picks.append((i, up))
+    out, clause, why = [], None, None
+    obj1b, obj2b, levels_b = make()
+    for i, up in picks:
+        lv, lvb = levels[i], levels_b[i]
+        for _ in range(up):
+            if lv.up is not None:
+                lv, lvb = lv.up, lvb.up
+        ops = gen_path_ops(rng, rng.randint(5, 12))
+        links = level_links(lv)
+        obs, raw, _lists = run_path_ops(lv, ops)
+        out.append((links, ops, obs))
+        if why is None:
+            clause, why = check_path_results(lv, obj1, obj2, ops, raw, guard_ok)
+        if why is None:
+            # history independence: the calls alone, in the reverse order, on a new tree
+            calls = [op for op in ops if op[0] == "call"]
+            _o, raw_b, _l = run_path_ops(lvb, list(reversed(calls)))
+            fwd = [r for op, r in zip(ops, raw) if op[0] == "call"]
+            snap = lambda x: x[1] if isinstance(x, tuple) and len(x) == 2 and isinstance(x[0], list) else x
+            for op, r1, r2 in zip(calls, fwd, reversed(raw_b)):
+                r1, r2 = snap(r1), snap(r2)
+                if repr(r1) != repr(r2):
+                    clause, why = "history", "level.path%r returned %r after the history of this trace and %r in the reverse order" % (op[1:], r1, r2)
+                    break
+    return out, clause, why
+
+
+def _pc_task(args):
+    kind, inp, seed = args
+    logging.disable(logging.CRITICAL)
+    try:
+        out, clause, why = observe_path_calls(kind, inp, seed)
+    except Exception as e:
+        return (args, [], "api", "the path API raised %s: %s" % (type(e).__name__, e))
+    cases = []
+    for links, ops, obs in out:
+        try:
+            expr = "c09_path_trace %s [%s]" % (coq_links(links), "; ".join(coq_pop(o) for o in ops))
+        except Exception:
+            continue                  # a relationship param that is not an atom: outside the model
+        cases.append((expr, obs))
+    return (args, cases, clause, why)
+
+
+def pc_case(kind, inp, seed, clause=None, why=None):
+    if kind == "multi":
+        d = {"path_calls": {"kind": kind, "locs": [[key_json(k) for k in l] for l in inp], "seed": seed},
+             "keys": [key_json(k) for l in inp for k in l]}
+    else:
+        prefix, a, b, sib_seed = inp
+        d = {"path_calls": {"kind": kind, "prefix": [key_json(k) for k in prefix], "a": a, "b": b, "sib_seed": sib_seed, "seed": seed},
+             "keys": [key_json(k) for k in prefix]}
+    d["python"] = "harness.props.c09.observe_path_calls(kind, input, seed): random level.path(...) calls on levels of the tree view"
+    if why:
+        d["failure"] = why
+        d["clause"] = clause
+    return d
+
+
+def pc_inputs(rng, pool, n):
+    inputs = []
+    while len(inputs) < n:
+        r = rng.random()
+        seed = rng.randrange(1 << 30)
+        if r < 0.55:
+            locs = gen_multi_shared(rng, pool) if seed % 3 == 0 else gen_multi(rng, pool)
+            raws = [repr([a for _t, a in l]) for l in locs]
+            if len(set(raws)) != len(raws):
+                continue
+            inputs.append(("multi", locs, seed))
+        else:
+            prefix = [gen_key(rng, pool) for _ in range(rng.randint(0, 2))]
+            if not path_ok(prefix):
+                continue
+            a, b = gen_list_pair(rng)
+            inputs.append(("list", (prefix, a, b, rng.randrange(1 << 30) if rng.random() < 0.5 else None), seed))
+    return inputs
+
+
+def path_calls(ctx, pool, n):
+    inputs = pc_inputs(ctx.rng, pool, n)
+    with mp.get_context("fork").Pool(core.NCPU) as pool_:
+        res = pool_.map(_pc_task, inputs, chunksize=8)
+    cases = []
+    for (kind, inp, seed), cs, clause, why in res:
+        ctx.seen(("path_calls", kind, repr(inp), seed), nontrivial=bool(cs))
+        ctx.count("path_calls:%s_inputs" % kind)
+        if kind == "multi" and seed % 3 == 0:
+            ctx.count("path_calls:inputs_with_a_shared_child")
+        if why:
+            r = ctx.fail(pc_case(kind, inp, seed, clause, why), why)
+        for expr, obs in cs:
+            ctx.count("path_calls:calls", sum(1 for o in obs if o != "-"))
+            cases.append((expr, obs, pc_case(kind, inp, seed)))
+    ctx.coq_cases("path_calls", HEADER2, cases, shard=150, label="path_calls")
+
+
+# ---- _path_to_elements: traces of calls through the lru_cache ------------------------------
+# (finding F9 lived there: the cached object was a list the callers could change)
+
+ROOT_ARGS = [None, None, ("root", "GETATTR"), ("root", "GET"), ("r", "GET")]
+LRU_STRINGS = ["root", "root[1]", "root['a']", "root['a'][0]", "root.a", "root.a['b'].c[0]", "root[1.5][None]", "root[True]", "root['a\"b']",
+               "root[\"a'b\"]", "root['__x']", "root[ 1]", "root[b'a']", "root['x.y'][-2]", "root['%sz']" % ESC]
+
+
+def coq_rootarg(re):
+    if re is None:
+        return "None"
+    return "(Some (%s, %s))" % (core.coq_pystr(re[0]), re[1])
+
+
+def coq_elements(els):
+    return "[" + "; ".join("(%s, %s)" % (values.atom_to_coq(x), act) for x, act in els) + "]"
+
+
+def coq_lop(op):
+    if op[0] == "call":
+        return "LCall %s %s" % (core.coq_pystr(op[1]), coq_rootarg(op[2]))
+    if op[0] == "callobj":
+        return "LCallObj %d%%nat %s" % (op[1], coq_rootarg(op[2]))
+    if op[0] == "alloc":
+        return "LAlloc (%s %s)" % ("HList" if op[1] == "L" else "HTuple", coq_elements(op[2]))
+    return "LMutate %d%%nat %s" % (op[1], coq_elements(op[2]))
+
+
+def gen_lru_ops(rng, strings):
+    pool = rng.sample(strings, min(len(strings), rng.randint(1, 3)))
+    ops, nobj = [], 0
+    junk = [[], [("zz", "GET")], [(0, "GET"), ("q", "GETATTR")]]
+    for _ in range(rng.randint(6, 14)):
+        r = rng.random()
+        if r < 0.6 or nobj == 0:
+            ops.append(("call", rng.choice(pool), rng.choice(ROOT_ARGS)))
+            nobj += 1            # an upper bound: a hit returns an old object
+        elif r < 0.72:
+            ops.append(("alloc", rng.choice("LT"), rng.choice(junk[1:])))
+            nobj += 1
+        elif r < 0.85:
+            ops.append(("callobj", rng.randrange(nobj), rng.choice(ROOT_ARGS)))
+        else:
+            ops.append(("mut", rng.randrange(nobj), rng.choice(junk)))
+    return ops
+
+
+def canon_els(els):
+    return [[canon_or_nonatom(x), "G" if act == "GET" else "A"] for x, act in els]
+
+
+def run_lru_ops(ops):
+    """Returns (observable for c09_lru_trace, failure or None).  Object identities are numbered in
+    the order the objects are first seen (the empty tuple is a singleton of CPython: numbered per call key)."""
+    from deepdiff.path import _path_to_elements, _parse_path_to_elements, parse_path
+    _parse_path_to_elements.cache_clear()
+    objs, tags, obs, why = [], [], [], None
+
+    def ident(r, key):
+        for i, o in enumerate(objs):
+            if (o is r and len(r) > 0) or (len(r) == 0 and isinstance(r, tuple) and key is not None and tags[i] == key):
+                return i
+        objs.append(r)
+        tags.append(key if (isinstance(r, tuple) and len(r) == 0) else None)
+        return len(objs) - 1
+
+    def show(r):
+        return ["T" if isinstance(r, tuple) else "L", canon_els(r)]
+    for op in ops:
+        try:
+            if op[0] == "call":
+                r = _path_to_elements(op[1], root_element=op[2])
+                ref = _parse_path_to_elements.__wrapped__(op[1], op[2])
+                if why is None and not (isinstance(r, tuple) and list(r) == list(ref) and all(type(a[0]) is type(b[0]) for a, b in zip(r, ref))):
+                    why = "_path_to_elements(%r, root_element=%r) returned %r %r through the cache, the function itself computes %r" % (
+                        op[1], op[2], type(r).__name__, r, ref)
+                obs.append([ident(r, ("call", op[1], op[2])), show(r)])
+            elif op[0] == "callobj":
+                if op[1] >= len(objs):
+                    obs.append("RAISE")
+                    continue
+                r = _path_to_elements(objs[op[1]], root_element=op[2])
+                if why is None and r is not objs[op[1]]:
+                    why = "_path_to_elements(<%s object>) did not return the object itself" % type(objs[op[1]]).__name__
+                obs.append([ident(r, None), show(r)])
+            elif op[0] == "alloc":
+                r = list(op[2]) if op[1] == "L" else tuple(op[2])
+                obs.append([ident(r, None), show(r)])
+            else:
+                if op[1] >= len(objs):
+                    obs.append("RAISE")
+                    continue
+                try:
+                    objs[op[1]][:] = list(op[2])
+                    obs.append("-")
+                except TypeError:
+                    obs.append("RAISE")
+        except Exception as e:
+            return None, "the path API raised %s: %s" % (type(e).__name__, e)
+    info = _parse_path_to_elements.cache_info()
+    # parse_path returns a new list at every call
+    for p in sorted({op[1] for op in ops if op[0] == "call"}):
+        a = parse_path(p)
+        want = [x for x, _a in _parse_path_to_elements.__wrapped__(p)][1:]
+        a.append("junk")
+        b = parse_path(p)
+        if why is None and not (isinstance(b, list) and b == want and b is not a):
+            why = "parse_path(%r) returned %r after the caller changed the list of an earlier call; the function itself computes %r" % (p, b, want)
+    return [obs, info.hits, info.misses, info.currsize], why
+
+
+def _lru_task(ops):
+    logging.disable(logging.CRITICAL)
+    obs, why = run_lru_ops(ops)
+    return ops, obs, why
+
+
+def lru_case(ops, why=None):
+    d = {"lru_trace": [list(o) for o in ops], "python": "harness.props.c09.run_lru_ops(ops): _path_to_elements calls from an empty lru_cache"}
+    if why:
+        d["failure"] = why
+        d["clause"] = "lru_cache"
+    return d
+
+
+def lru_unjson(ops):
+    out = []
+    for o in ops:
+        if o[0] in ("call", "callobj"):
+            out.append((o[0], o[1], None if o[2] is None else tuple(o[2])))
+        else:
+            out.append((o[0], o[1], [tuple(x) for x in o[2]]))
+    return out
+
+
+def lru_calls(ctx, n):
+    from deepdiff.path import stringify_path
+    rng = ctx.rng
+    strings = list(LRU_STRINGS)
+    for _ in range(40):
+        ks = [k for k in gen_seq(rng, ["a", "b", "a'b", "", " ", "x.y", "[", "é"], 3) if not isinstance(k[1], bytes)]
+        if path_ok(ks):
+            strings.append(stringify_path([a for _t, a in ks], root_element=("root", "GET")))
+    traces = [[("call", "root[1]", None), ("mut", 0, []), ("call", "root[1]", None)]]         # the trace of F9
+    traces += [gen_lru_ops(rng, strings) for _ in range(n)]
+    with mp.get_context("fork").Pool(core.NCPU) as pool_:
+        res = pool_.map(_lru_task, traces, chunksize=16)
+    cases = []
+    for ops, obs, why in res:
+        ctx.seen(("lru", repr(ops)), nontrivial=True)
+        ctx.count("lru_calls:traces")
+        ctx.count("lru_calls:ops", len(ops))
+        if why:
+            ctx.fail(lru_case(ops, why), why)
+        if obs is not None:
+            ctx.count("lru_calls:cache_hits", obs[1])
+            cases.append(("c09_lru_trace_or [%s] (%s)" % ("; ".join(coq_lop(o) for o in ops), core.sx(obs)), obs, lru_case(ops)))
+    ctx.coq_cases("lru_calls", HEADER2, cases, shard=150, label="lru_calls")
+
+
 # ---- refuted witnesses still fail on the implementation -----------------------
 
 def witnesses(ctx):
     for key, ks in (("K5-both-quote-characters", [("k", "a'b\"c")]), ("K6-escape-character", [("k", ESC)])):
         open_ = any(f["key"] == key and f.get("status") == "open" for f in ctx.findings)
-        _exp, why, _o = observe(ks, None)
-        if open_ and why is None:
+        _exp, whys, _o = observe(ks, None)
+        why = "; ".join(w for _c, w in whys) or None
+        if open_ and not any(c in ROUNDTRIP_CLAUSES for c, _w in whys):
             ctx.break_("correspondence", {"name": "refuted_witness", "finding": key,
                                           "detail": "the witness of the Coq _refuted theorem no longer fails on the implementation: the model is wrong there"})
         ctx.note("witness:" + key, why or "does not fail")
 
 
 def run(ctx):
+    import os
     logging.disable(logging.CRITICAL)
-    witnesses(ctx)
-    pool2, len3 = exhaustive_single(ctx)
+    # development only (--no-proof): C09_ONLY=stream,stream runs a selection of the streams
+    only = os.environ.get("C09_ONLY", "") if getattr(ctx, "no_proof", False) else ""
+    only = set(only.split(",")) if only else None
+
+    def on(name):
+        return only is None or name in only
+    if on("witnesses"):
+        witnesses(ctx)
+    pool2 = list(all_strings(2))
+    len3 = []
+    if on("single"):
+        pool2, len3 = exhaustive_single(ctx)
     pool = pool2 + len3[:2000]
-    embedded(ctx, pool, 6000 if ctx.thorough else 1200)
-    multi_leaf(ctx, pool, 1500 if ctx.thorough else 300)
-    list_edits(ctx, pool, 2500 if ctx.thorough else 400)
-    parser_strings(ctx, 3000 if ctx.thorough else 600)
-    extract_positions(ctx, 400 if ctx.thorough else 80)
+    if on("embedded"):
+        embedded(ctx, pool, 6000 if ctx.thorough else 1200)
+    if on("multi_leaf"):
+        multi_leaf(ctx, pool, 1500 if ctx.thorough else 300)
+    if on("list_edits"):
+        list_edits(ctx, pool, 2500 if ctx.thorough else 400)
+    if on("path_calls"):
+        path_calls(ctx, pool, 1200 if ctx.thorough else 150)
+    if on("lru_calls"):
+        lru_calls(ctx, 1500 if ctx.thorough else 250)
+    if on("parser_strings"):
+        parser_strings(ctx, 3000 if ctx.thorough else 600)
+    if on("extract_positions"):
+        extract_positions(ctx, 400 if ctx.thorough else 80)
+    if only is not None:
+        return
 
     # extension: class instances (attributes) inside the same models - beyond the property's stated domain,
     # recorded in the evidence file, never a violation (core.Ctx.extension; coq/theories/Obj)
@@ -816,13 +1335,36 @@ def replay(ctx, data):
     case = data.get("case", {})
     if "keys" in case and "obj" not in case:
         ks = [key_unjson(j) for j in case["keys"]]
-        exp, why, obj1 = observe(ks, case.get("sib_seed"))
+        exp, whys, obj1 = observe(ks, case.get("sib_seed"))
         ctx.seen(("replay", repr(ks)), nontrivial=True)
-        print("replay: keys=%r obj=%r observed=%r failure=%r" % ([a for _t, a in ks], obj1, exp, why))
-        if why:
-            ctx.fail(case_dict(ks, case.get("sib_seed"), why), why)
+        print("replay: keys=%r obj=%r observed=%r failures=%r" % ([a for _t, a in ks], obj1, exp, whys))
+        for w in split_whys(whys):
+            if w:
+                ctx.fail(case_dict(ks, case.get("sib_seed"), w[1], w[0]), w[1])
         if exp is not None:
             ctx.coq_cases("replay", HEADER, [("c09_case_or %s %s (%s)" % (coq_path(ks), values.to_coq(obj1), core.sx(exp)), exp, case)])
+    elif "path_calls" in case:
+        pc = case["path_calls"]
+        if pc["kind"] == "multi":
+            inp = [[key_unjson(j) for j in l] for l in pc["locs"]]
+        else:
+            inp = ([key_unjson(j) for j in pc["prefix"]], pc["a"], pc["b"], pc.get("sib_seed"))
+        out, clause, why = observe_path_calls(pc["kind"], inp, pc["seed"])
+        ctx.seen(("replay", repr(pc)), nontrivial=True)
+        print("replay: path_calls kind=%s input=%r seed=%d traces=%r failure=%r" % (pc["kind"], inp, pc["seed"], [(l, o) for l, o, _x in out], why))
+        if why:
+            ctx.fail(pc_case(pc["kind"], inp, pc["seed"], clause, why), why)
+        _a, cs, _c, _w = _pc_task((pc["kind"], inp, pc["seed"]))
+        ctx.coq_cases("replay", HEADER2, [(e, o, case) for e, o in cs])
+    elif "lru_trace" in case:
+        ops = lru_unjson(case["lru_trace"])
+        obs, why = run_lru_ops(ops)
+        ctx.seen(("replay", repr(ops)), nontrivial=True)
+        print("replay: lru trace=%r observed=%r failure=%r" % (ops, obs, why))
+        if why:
+            ctx.fail(lru_case(ops, why), why)
+        if obs is not None:
+            ctx.coq_cases("replay", HEADER2, [("c09_lru_trace_or [%s] (%s)" % ("; ".join(coq_lop(o) for o in ops), core.sx(obs)), obs, case)])
     elif "list_edit" in case:
         le = case["list_edit"]
         prefix = [key_unjson(j) for j in le["prefix"]]
@@ -860,7 +1402,7 @@ def replay(ctx, data):
         print("replay: obj=%r path=%r extract=%r expected=%r" % (obj, p, got, cur))
         if not good:
             why = "extract(obj, %r) does not return the object at %r" % (p, pos)
-            ctx.fail(dict(case, failure=why), why)
+            ctx.fail(dict(case, failure=why, clause="extract"), why)
         ctx.coq_cases("replay", HEADER, [("c09_extract_case %s %s" % (values.to_coq(obj), coq_path(ks)),
                                           [p, ex, ["Some", values.canon(cur)]], case)])
     else:
